@@ -291,3 +291,54 @@ def _copy_source(body, bp, bb, op):
 
 def _after_loop(cfg, blks, b):
     return b not in blks and any(b in cfg.reachable_from([x]) for a in blks for x in cfg.succ[a] if x not in blks)
+
+
+def mw5_hooks_on_every_action(ctx, rep):
+    """each hook phase is entered for every action of its kind: the only way around a hook loop
+    is an empty middleware list (and, for before_dispatch, a Keep answer)"""
+    R = "MW5"
+    A = ctx.A
+    P = _pipe(ctx)
+    G = P.G
+    from rules.pipe import n2_flag_edges
+    # edges taken when `middlewares.is_empty()` is true
+    empty_edges = []
+    for k, n in G.nodes.items():
+        t = n.body.blocks[n.bb]["term"]
+        if t["k"] != "switch" or t["discr"]["k"] not in ("copy", "move"):
+            continue
+        bp = ctx.prog.bp(n.body)
+        raw = bp.operand_term(t["discr"], n.bb, "term")
+        neg = False
+        if raw[0] == "unop" and raw[1] == "Not":
+            raw = raw[2]
+            neg = True
+        if raw[0] != "call" or raw[2] != "std::vec::Vec::is_empty" or raw[1][0] != n.body.path:
+            continue
+        at = strip_wrap(bp.arg_term(raw[1][1], 0))
+        if not (at[0] == "field" and at[2] == A.f_middlewares):
+            continue
+        zero = [bb for v, bb in t["targets"] if str(v) == "0"]
+        nonzero = t["otherwise"]
+        empty_tgt = (zero[0] if zero else nonzero) if neg else nonzero
+        empty_edges.append((k, (k[0], n.body.path, empty_tgt)))
+    te, fe = n2_flag_edges(ctx)
+    n = 0
+    for hook in HOOKS:
+        for k, s in P.ev.get("HOOK:" + hook, []):
+            n += 1
+            forbid = list(empty_edges)
+            if hook == "before_dispatch":
+                forbid += fe  # world in which the chain's notify flag is true
+            # marker of "the hook phase was entered": the Iterator::next call that yields the
+            # hook's receiver (an exhausted list legitimately calls no hook)
+            bp = ctx.prog.bp(s.body)
+            nx = [st for st in subterms(bp.arg_term(s.bb, 0)) if st[0] == "call" and st[2] == "std::iter::Iterator::next" and st[1][0] == s.body.path]
+            marker = {k}
+            if nx:
+                marker = {(k[0], s.body.path, nx[0][1][1])}
+            r = G.reach_corr(P.recv, avoid=marker, after=True, forbid_edges=forbid)
+            rep.check(not (r & set(P.recv)), R, "hook-phase-not-bypassed:%s" % hook, s.where,
+                      "with a non-empty middleware list%s every action reaches the %s hooks" % (" and a Dispatch answer" if hook == "before_dispatch" else "", hook),
+                      "the %s hooks can be bypassed although middlewares are registered%s" % (hook, " and the reducers answered Dispatch" if hook == "before_dispatch" else ""))
+    rep.floor(R, "hook sites", n, 3)
